@@ -285,13 +285,17 @@ def check(prog, rep, tier):
         fs = {k[1]: v for k, v in p.fields.items() if k[0] == SELF}
         sb = strip_epochs(fs.get("_size_bytes", ("unk", "missing")))
         want = norm(("call", ("ext", "math", "ceil"), (("bin", "/", ("p", "size"), C(8)),), ()))
-        if sb == want:
+        want2 = norm(("bin", "//", ("bin", "+", ("p", "size"), C(7)), C(8)))  # the integer spelling of ceil(size / 8)
+        want3 = norm(("un", "-", ("bin", "//", ("un", "-", ("p", "size")), C(8))))
+        if sb in (want, want2, want3):
             rep.ok("C20.alloc", "size_bytes = ceil(size/8)")
         else:
             rep.bad("C20.alloc", f"{CLS}.__init__", f"_size_bytes = {nshow(sb)}", f"_size_bytes is {nshow(sb)}, expected ceil(size/8)", init.where())
         arr = strip_epochs(fs.get(ARR, ("unk", "missing")))
         okarr = arr[0] == "nary" and arr[1] == "*" and len(arr[2]) == 2 and any(x == sb for x in arr[2]) and \
             any(x[0] == "newb" and x[1] == "array" and x[3] and x[3][0] == C("B") and x[3][1] == ("lst", (C(0),)) for x in arr[2])
+        if not okarr:
+            okarr = arr[0] == "newb" and arr[1] == "array" and len(arr[3]) == 2 and arr[3][0] == C("B") and arr[3][1] == ("call", ("g", "bytes"), (sb,), ())
         if okarr:
             rep.ok("C20.alloc", "bitarray = array('B',[0]) * size_bytes")
         else:
